@@ -72,7 +72,8 @@ class C09:
                    'limit is a non-negative integer; curves are finite with strictly increasing x']
     trusted = ['modelled: the decision layer of curvature.knee, dfdt.get_knee/get_knee_gradient/knee, menger.knee, lmethod.get_knee/knee (Model/Detectors.v)',
                'oracles (not modelled, evaluated by calling the library / its dependency on the same data): uts.gradient.cfd/csd, uts.thresholding.isodata, '
-               'menger.menger_curvature, lmethod.compute_error; the curvature criterion |f\'\'|/(1+f\'^2)^1.5 is evaluated in NumPy by the harness on the uts outputs',
+               'menger.menger_curvature, np.polyfit residuals (Fit.best_fit only; the L-method error itself is derived in the model from the points and compared '
+               'bit for bit with lmethod.compute_error); the curvature criterion |f\'\'|/(1+f\'^2)^1.5 is evaluated in NumPy by the harness on the uts outputs',
                'loop traces of the implementation are observed through pass-through wrappers on dfdt.get_knee_gradient and lmethod.get_knee (no source hook)']
     timeout = 6.0
     shard = 250
@@ -175,28 +176,35 @@ class C09:
                 c['mc'] = [float(menger.menger_curvature(pts[i], pts[i - 1], pts[i + 1])) for i in range(1, n - 1)]
             except Exception:
                 c['mc'] = None
-        elif kind == 'lmg':
+        elif kind in ('lmg', 'lm'):
+            # the criterion is derived in the model from the points; the only oracle is np.polyfit's residual (best_fit),
+            # evaluated directly on the two slices; what lmethod.compute_error returns is recorded for the bit-for-bit conjunct
             fit = lm.Fit[c['fit']]
-            cost = lm.Cost[c['cost']]
-            tab = []
-            for i in cands(n):
-                st, out = call(lambda: lm.compute_error(x, y, i, x[-1] - x[0], fit, cost)[0])
-                tab.append([i, float(out) if st == 'ok' else None])
-            c['err'] = tab
-        elif kind == 'lm':
-            fit = lm.Fit[c['fit']]
-            ms = set([n]) | set(touched or [])
-            if n <= 12 or touched is None:
-                ms |= set(range(3, n + 1))
-            tab = []
-            for m in sorted(ms):
-                if m < 3 or m > n:
-                    continue
+            if kind == 'lmg':
+                cost = lm.Cost[c['cost']]
+                ms = [n]
+            else:
+                cost = lm.Cost.rmse
+                ms = set([n]) | set(touched or [])
+                if n <= 12 or touched is None:
+                    ms |= set(range(3, n + 1))
+                ms = sorted(m for m in ms if 3 <= m <= n)
+            slices = set()
+            cerr = []
+            for m in ms:
                 xm, ym = x[0:m], y[0:m]
                 for i in cands(m):
-                    st, out = call(lambda: lm.compute_error(xm, ym, i, xm[-1] - xm[0], fit)[0])
-                    tab.append([m, i, float(out) if st == 'ok' else None])
-            c['lerr'] = tab
+                    slices.add((0, i + 1))
+                    slices.add((i, m))
+                    st, out = call(lambda: lm.compute_error(xm, ym, i, xm[-1] - xm[0], fit, cost)[0])
+                    cerr.append([m, i, float(out) if st == 'ok' else None])
+            c['cerr'] = cerr
+            pres = []
+            if c['fit'] == 'best_fit':
+                for a, b in sorted(slices):
+                    st, out = call(lambda: np.polyfit(x[a:b], y[a:b], 1, full=True)[1][0])
+                    pres.append([a, b, float(out) if st == 'ok' else None])
+            c['pres'] = pres
         return c
 
     # ------------------------------------------------------------------ the implementation
@@ -303,13 +311,17 @@ class C09:
             return 'CDfdtG %s %s %s %s' % (n, copt(c['grad'], cfls), fl(c['t']), out)
         if kind == 'dfdt':
             return 'CDfdt %s %s %s %s' % (n, copt(c['grad'], cfls), clist(['(%s, %s)' % (cnat(a), fl(b)) for a, b in c['iso']]), out)
+        pts = cpts([[float(a), float(b)] for a, b in c['points']])
         if kind == 'menger':
-            return 'CMenger %s %s %s' % (n, copt(c['mc'], cfls), out)
+            return 'CMenger %s %s %s' % (pts, copt(c['mc'], cfls), out)
+        fit = {'point_fit': 'FitPoint', 'best_fit': 'FitBest'}[c['fit']]
+        pres = ctab3(c['pres'])
+        cerr = ctab3(c['cerr'])
         if kind == 'lmg':
-            return 'CLmG %s %s %s' % (n, clist(['(%s, %s)' % (cnat(i), coval(v)) for i, v in c['err']]), out)
+            cost = {'rmse': 'CostRmse', 'rss': 'CostRss'}[c['cost']]
+            return 'CLmG %s %s %s %s %s %s' % (pts, fit, cost, pres, cerr, out)
         ref = {'none': 'RefNone', 'original': 'RefOriginal', 'adjusted': 'RefAdjusted'}[c['it']]
-        return 'CLm %s %s %s %s %s' % (n, ref, cnat(c['limit']),
-                                       clist(['(%s, %s, %s)' % (cnat(m), cnat(i), coval(v)) for m, i, v in c['lerr']]), out)
+        return 'CLm %s %s %s %s %s %s %s' % (pts, fit, ref, cnat(c['limit']), pres, cerr, out)
 
     # ------------------------------------------------------------------ evidence, shrinking, findings
     def nontrivial_key(self, c):
@@ -335,10 +347,8 @@ class C09:
         if c['kind'] == 'lmg':
             h['lmethod.get_knee config'] = '%s/%s' % (c['fit'], c['cost'])
         arr = c.get('curv') or c.get('mc') or c.get('grad') or []
-        if c['kind'] in ('lmg',):
-            arr = [v for _, v in c.get('err', []) if v is not None]
-        if c['kind'] == 'lm':
-            arr = [v for _, _, v in c.get('lerr', []) if v is not None]
+        if c['kind'] in ('lmg', 'lm'):
+            arr = [v for _, _, v in c.get('cerr', []) if v is not None]
         h['NaN in criterion table'] = any(isinstance(v, float) and v != v for v in arr)
         return h
 
@@ -389,6 +399,10 @@ def as_nat(v):
         return int(f)
     except Exception:
         return None
+
+
+def ctab3(tab):
+    return clist(['(%s, %s, %s)' % (cnat(a), cnat(b), coval(v)) for a, b, v in tab])
 
 
 def coval(v):
